@@ -71,7 +71,7 @@ API_FORCED = [
 
 
 def gen(rng, tier):
-    n = 110 if tier == "quick" else 1500
+    n = 900 if tier == "quick" else 60000
     cases = []
     for i, (f, t) in enumerate(S.FORCED):
         for j, o in enumerate(S.OPT_SETS if tier != "quick" else [S.OPT_SETS[(i + k) % len(S.OPT_SETS)] for k in (0, 1)]):
@@ -121,8 +121,61 @@ def shrink(case):
 
 # ------------------------------------------------------------------------------------------------ implementation side
 
+_MD = []
+
+
+class _EdgeProxy:
+    """Stands in for one matcher edge during `make_distinct` and counts the tighten_bounds() steps it receives."""
+    __slots__ = ("_lazy_real", "n")
+
+    def __init__(self, real):
+        self._lazy_real = real
+        self.n = 0
+
+    def bounds(self):
+        return self._lazy_real.bounds()
+
+    def tighten_bounds(self):
+        self.n += 1
+        return self._lazy_real.tighten_bounds()
+
+    def __lt__(self, other):
+        return self._lazy_real < getattr(other, "_lazy_real", other)
+
+    def __repr__(self):
+        return repr(self._lazy_real)
+
+
+def _install_md_recorder():
+    """Oracle of `make_distinct` (its visiting order depends on a third-party set order): per matcher, how many
+    tighten_bounds() steps every edge received.  Keyed like the scipy recorder by the matcher's node paths."""
+    import graphtage.matching as gm
+    orig = gm.WeightedBipartiteMatcher._make_edges_distinct
+    if getattr(orig, "_md_recorder", False):
+        return
+
+    def wrapped(self):
+        if self._edges_are_distinct:
+            return orig(self)
+        real = self.edges
+        prox = [[_EdgeProxy(e) for e in row] for row in real]
+        self._edges = prox
+        try:
+            return orig(self)
+        finally:
+            self._edges = real
+            try:
+                _MD.append({"f": [S._vpath(n) for n in self.from_nodes], "t": [S._vpath(n) for n in self.to_nodes],
+                            "counts": [[p.n for p in row] for row in prox]})
+            except Exception as e:
+                _MD.append({"error": repr(e)})
+    wrapped._md_recorder = True
+    gm.WeightedBipartiteMatcher._make_edges_distinct = wrapped
+
+
 def worker_init():
     S.worker_init()          # scipy recorder (oracle of the matcher)
+    _install_md_recorder()
     L.quiet_logging()
     set_quiet(True)
 
@@ -247,6 +300,7 @@ def _impl(case):
         # ---- instrumented run
         L.install()
         del S._RECORD[:]
+        del _MD[:]
         L.start(MAX_STEPS)
         root_holder = []
         err = None
@@ -278,7 +332,7 @@ def _impl(case):
                 md_bad.append(rec["final"])
         obs = {"hits": sorted(set(map(tuple, hits))), "stats": stats, "steps": steps, "err": err,
                "nobj": len(objs), "md": [{"n": r["n"], "counts": r["counts"]} for r in md if any(r["counts"])],
-               "md_calls": len(md), "md_bad": md_bad[:3], "oracle": list(S._RECORD)}
+               "md_calls": len(md), "md_bad": md_bad[:3], "oracle": list(S._RECORD), "mdo": list(_MD)}
         obs["root"] = root_ops(events[root_id]) if root_id is not None else []
         obs["root_class"] = type(objs[root_id]).__name__ if root_id is not None else None
         if err == "step-limit":
@@ -313,17 +367,29 @@ def _impl(case):
 
 # ------------------------------------------------------------------------------------------------ model side
 
-MODEL_READY = False
+MODEL_READY = True
+OPMAP = {"bounds": "bounds", "tighten": "tighten", "complete": "complete", "valid": "valid", "edits": "ondiff"}
 
 
 def to_model(case, obs):
-    if not MODEL_READY or case.get("api") or not isinstance(obs, dict) or obs.get("error") or obs.get("err"):
+    from . import history as H
+    if not MODEL_READY or not isinstance(obs, dict) or obs.get("error") or obs.get("err"):
         return None
-    return None
+    if case["mode"] == "contexts" or not H.in_model_domain(case) or "final" not in obs:
+        return None
+    if any(op[0] not in OPMAP for op in obs["root"]):
+        return None
+    o = case.get("opts", {})
+    return {"s": "lazy", "f": S.enc(case["f"]), "t": S.enc(case["t"]),
+            "ake": o.get("allow_key_edits", True), "amk": o.get("auto_match_keys", True),
+            "ale": o.get("allow_list_edits", True), "alesl": o.get("allow_list_edits_when_same_length", True),
+            "ops": [OPMAP[op[0]] for op in obs["root"]], "quiets": [bool(case.get("quiet", True))],
+            "oracle": [[r for r in obs.get("oracle", []) if "pairs" in r]],
+            "md": [[r for r in obs.get("mdo", []) if "counts" in r]]}
 
 
 def expect(case, obs):
-    return None
+    return [{"results": [op[1] if len(op) > 1 else None for op in obs["root"]], "final": obs["final"]}]
 
 
 # ------------------------------------------------------------------------------------------------ monitor
